@@ -110,6 +110,9 @@ Partner(t1, t2) ==
       cs == IF det THEN Composite(t1, t2) ELSE t1
       mcs(D) == M_typecomposite(t2, t1, D)          \* declcommon: prior->type = typecomposite(t /* new */, prior->type)
       pa == PtrAssignOK(Ptr(t1), Ptr(t2))
+      ct == TypeOfCond(Obj(Ptr(t1)), Obj(Ptr(t2)), "x86_64-sysv")
+      cm == M_condexpr(Obj(Ptr(t1)), Obj(Ptr(t2)), "x86_64-sysv", Devs).t
+      cdet == ~IsErr(ct) /\ ~IsErr(cm) /\ (PtrTargetsCompatible(Ptr(t1), Ptr(t2)) => CompositeDetermined(Unq(t1), Unq(t2)))
   IN [t2 |-> t2,
       compat |-> comp,                       \* 6.2.7 (including the types' own qualifiers)
       compat_unq |-> cu,                     \* ignoring top-level qualifiers (GNU builtin)
@@ -134,7 +137,12 @@ Partner(t1, t2) ==
       cs_complete |-> det /\ IsCompleteObj(cs),
       mod_complete |-> det /\ IsCompleteObj(mcs(Devs)),
       mod_sees_c |-> det /\ Compatible(mcs(Devs), cs),
-      mod_sees_bump |-> det /\ Compatible(mcs(Devs), Bump(cs))]
+      mod_sees_bump |-> det /\ Compatible(mcs(Devs), Bump(cs)),
+      \* 6.5.15p6: `K ? p1 : p2` with p1 : T1 *, p2 : T2 * (declared objects); K ranges over CTypes.CondControls in the harness
+      cond |-> cdet,
+      condt |-> IF cdet THEN ct ELSE Ptr(t1),
+      cond_dev |-> cdet /\ cm # ct,
+      cond_alt |-> cdet /\ M_typecompatible(ct, cm)]
 
 A_TypeCompatible ==
   /\ ~r.done
@@ -162,5 +170,11 @@ Inv_Reflexive == r.done => r.refl
 RECURSIVE LeafOf(_)
 LeafOf(t) == IF t.k = "ptr" THEN LeafOf(t.to) ELSE IF t.k = "arr" THEN LeafOf(t.of) ELSE IF t.k = "fn" THEN LeafOf(t.ret) ELSE Unq(t)
 EmitThis == c.t1 \in DT(IF Depth > 2 THEN 2 ELSE Depth) \/ LeafOf(c.t1) \in {TypeByName(n) : n \in EmitLeafNames}
-Inv_Emit == (Emit /\ r.done /\ EmitThis) => PrintT("VCASE " \o ToJson([form |-> "compat", t1 |-> c.t1, partners |-> r.partners]))
+NpcInt == X(B("int"), 0, FALSE, TRUE)                 \* the constant 0
+NpcVoid == X(Ptr(Void), 0, FALSE, TRUE)               \* (void *)0
+Inv_Emit == (Emit /\ r.done /\ EmitThis) =>
+  PrintT("VCASE " \o ToJson([form |-> "compat", t1 |-> c.t1, partners |-> r.partners, conds |-> CondControls,
+          \* null pointer constant rows of 6.5.15p6: `K ? 0 : p`, `K ? p : 0`, `K ? (void *)0 : p`, `K ? p : (void *)0` with p : T1 *
+          npc |-> <<TypeOfCond(NpcInt, Obj(Ptr(c.t1)), "x86_64-sysv"), TypeOfCond(Obj(Ptr(c.t1)), NpcInt, "x86_64-sysv"),
+                    TypeOfCond(NpcVoid, Obj(Ptr(c.t1)), "x86_64-sysv"), TypeOfCond(Obj(Ptr(c.t1)), NpcVoid, "x86_64-sysv")>>]))
 =============================================================================
